@@ -3,10 +3,13 @@
    end-to-end statement for the generator the call-site table selects; JoinAll.streamed_total proves that
    statement for all eight generators from `kind_pre` (sorted keys, strictly sorted on the sides the
    variant's name declares unique) and 1 <= cs.  Here the two are put together for every
-   how in {left,right,inner} and every unique-hint pair. *)
+   how in {left,right,inner} and every unique-hint pair.
+   Reconciled with extension E7 (fix-F-C02f): C04's map streams now need only "valid entries in range"
+   (MergeTop.jmaps_in_range), so the hypothesis `nbd` (no key repeated on both sides) is gone from every
+   theorem of this file: the general variants hold for many-to-many keys as well. *)
 From Coq Require Import ZArith List Lia Bool.
 From EV Require Import Res Arr Join JoinSpec JoinBase JoinIface JoinRows JoinDriver JoinMain JoinAll
-  MapStream MapStreamSpec MapIndexedDriver Merge MergeSpec MergeBase MergeOrdered MergeMaps MergeTop.
+  MapStream MapStreamSpec MapStreamBase MapIndexedDriver Merge MergeSpec MergeBase MergeOrdered MergeMaps MergeTop.
 Import ListNotations.
 Open Scope Z_scope.
 
@@ -90,7 +93,6 @@ Hypothesis Hmcs : 1 <= mcs.
 Hypothesis Hvf : 0 <= vf.
 Hypothesis Hccs : 1 <= ccs.
 Hypothesis Hpre : hints_truthful lu ru lk rk.
-Hypothesis Hnbd : nbd A B.
 Hypothesis Hlframe : frame_ok (len lk) lcols (mcs * vf).
 Hypothesis Hrframe : frame_ok (len rk) rcols (mcs * vf).
 Hypothesis Hnames : NoDup (frame_names (ordered_dest how lu ru lk rk lcols rcols lsuf rsuf)).
@@ -101,11 +103,8 @@ Lemma ordered_merge_of_ok :
   ordered_merge MFixed how lu ru lk rk lcols rcols lsuf rsuf (len lk) (len rk) cs mcs vf ccs
   = Ok (ordered_dest how lu ru lk rk lcols rcols lsuf rsuf).
 Proof.
-  intros HC. destruct Hpre as (HsL & HsR & _ & _).
-  assert (HA : sorted A /\ sorted B).
-  { unfold A, B, sel_a, sel_b. destruct (how =? 1); split; assumption. }
-  destruct HA as (HA & HB).
-  destruct (jmaps_valid how lu ru lk rk inv Hhow HA HB Hnbd) as (Hvl & Hvr).
+  intros HC.
+  destruct (jmaps_in_range how lu ru lk rk inv Hhow) as (Hvl & Hvr).
   apply ordered_merge_ok; try assumption.
   - fold inv. destruct (fst (jmaps how lu ru lk rk inv)) as [m|]; [|exact I].
     apply frame_ok_cols_ok; assumption.
@@ -159,7 +158,8 @@ Theorem ordered_merge_terminates :
 Proof. destruct ordered_merge_total_all as [H|(H & _)]; rewrite H; discriminate. Qed.
 End All.
 
-(* a truthful unique hint on either side excludes a key repeated on both sides: nbd is discharged *)
+(* a truthful unique hint on either side excludes a key repeated on both sides (no longer needed by any theorem
+   since fix-F-C02f; kept as a fact about the hints) *)
 Lemma hints_nbd how lu ru lk rk : lu = true \/ ru = true -> hints_truthful lu ru lk rk ->
   nbd (sel_a how lk rk) (sel_b how lk rk).
 Proof.
@@ -168,7 +168,9 @@ Proof.
     [apply nbd_right_unique|apply nbd_left_unique|apply nbd_left_unique|apply nbd_right_unique]; auto.
 Qed.
 
-Theorem ordered_merge_unique_hint_correct how lu ru lk rk lcols rcols lsuf rsuf cs mcs vf ccs :
+(* any truthful unique hint: now a plain instance of ordered_merge_correct_all (it used to be the only way to
+   discharge nbd) *)
+Corollary ordered_merge_unique_hint_correct how lu ru lk rk lcols rcols lsuf rsuf cs mcs vf ccs :
   how = 0 \/ how = 1 \/ how = 2 -> 1 <= cs -> 1 <= mcs -> 0 <= vf -> 1 <= ccs ->
   lu = true \/ ru = true -> hints_truthful lu ru lk rk ->
   chunks_ok (v_kind (sel_variant how lu ru)) cs (sel_a how lk rk) (sel_b how lk rk) ->
@@ -178,14 +180,14 @@ Theorem ordered_merge_unique_hint_correct how lu ru lk rk lcols rcols lsuf rsuf 
   = Ok (ordered_dest how lu ru lk rk lcols rcols lsuf rsuf).
 Proof.
   intros Hhow Hcs Hmcs Hvf Hccs Hu Hpre Hck Hlf Hrf Hn.
-  apply ordered_merge_correct_all; try assumption. apply (hints_nbd how lu ru); assumption.
+  apply ordered_merge_correct_all; assumption.
 Qed.
 
 (* chunk sizes are unobservable for every variant (any two settings the inputs fit) *)
 Theorem chunk_sizes_unobservable_all how lu ru lk rk lcols rcols lsuf rsuf cs mcs vf ccs cs' mcs' vf' ccs' :
   how = 0 \/ how = 1 \/ how = 2 ->
   1 <= cs -> 1 <= mcs -> 0 <= vf -> 1 <= ccs -> 1 <= cs' -> 1 <= mcs' -> 0 <= vf' -> 1 <= ccs' ->
-  hints_truthful lu ru lk rk -> nbd (sel_a how lk rk) (sel_b how lk rk) ->
+  hints_truthful lu ru lk rk ->
   chunks_ok (v_kind (sel_variant how lu ru)) cs (sel_a how lk rk) (sel_b how lk rk) ->
   chunks_ok (v_kind (sel_variant how lu ru)) cs' (sel_a how lk rk) (sel_b how lk rk) ->
   frame_ok (len lk) lcols (mcs * vf) -> frame_ok (len rk) rcols (mcs * vf) ->
